@@ -141,13 +141,15 @@ theorem stepOK_of_C10 {m n : ℕ} (N : C09Euclid.NLS X m n) (h : N.Spec) : StepO
   C09Euclid.stepOK N h
 
 /-- Zero residual (`r_n == 0`, where the code computes `rho = NaN`): the step is accepted, no strategy takes
-    it (`Δ` shrinks), `Ftol` cannot fire, `Ptol` fires iff `‖D dx‖ < ptol·n`. -/
+    it (`Δ` shrinks), the `Ftol` TEST cannot fire, `Ptol` fires iff `‖D dx‖ < ptol·n`.  With the model switch
+    `Optim.zeroResidualConverged` (pending repair of optim.hpp) the status is `Ftol` instead. -/
 theorem nan_rho_paths (opts : Opts ℝ) (s : State X (Strat ℝ)) (o : Obs ℝ) (xp xa : X) (h : o.rn = 0) :
     rhoOf o = .nan
       ∧ (advance builtinOps opts s o xp xa).2.take = false
       ∧ (advance builtinOps opts s o xp xa).2.accepted = true
       ∧ (advance builtinOps opts s o xp xa).1.x = xp
-      ∧ (advance builtinOps opts s o xp xa).1.status = (if ptolTest opts o then some .Ptol else s.status)
+      ∧ (advance builtinOps opts s o xp xa).1.status
+          = (if zeroResidualConverged then some .Ftol else if ptolTest opts o then some .Ptol else s.status)
       ∧ (advance builtinOps opts s o xp xa).1.strat.delta
           = (match s.strat.kind with | .ceres => s.strat.delta / s.strat.reduce | .disney => s.strat.delta / 10) := by
   have hz : IsZero o.rn := (isZero_iff _).2 h
@@ -169,7 +171,9 @@ theorem nan_rho_paths (opts : Opts ℝ) (s : State X (Strat ℝ)) (o : Obs ℝ) 
   · unfold advance; dsimp only; rw [if_pos hacc]
     dsimp only
     rw [hft]
-    simp
+    have hzd : decide (IsZero o.rn) = true := by simp [IsZero, h]
+    rw [hzd]
+    cases zeroResidualConverged <;> simp
   · rw [advance_strat, hrho]
     unfold builtinOps Strat.stepAndUpdate
     cases hk : s.strat.kind <;> simp [Rho.gt, hk]
